@@ -17,6 +17,7 @@ import time
 ROOT = os.path.dirname(os.path.dirname(os.path.abspath(__file__)))
 BUILD = os.path.join(ROOT, "build", "replay")
 B64 = 1 << 64
+LAST_BANK_INFO = {}
 
 
 def build_driver(repo):
@@ -41,10 +42,28 @@ def hx(n):
     return ("-" if n < 0 else "") + format(abs(n), "x")
 
 
-def run_cases(binary, cases):
+def run_cases(binary, cases, timeout=600):
     inp = "\n".join(" ".join(c) for c in cases) + "\n"
-    p = subprocess.run([binary], input=inp, capture_output=True, text=True, timeout=600)
-    return p.stdout.split("\n")[:len(cases)]
+    p = subprocess.run([binary], input=inp, capture_output=True, text=True, timeout=timeout)
+    out = p.stdout.split("\n")[:len(cases)]
+    if p.returncode != 0 and len([x for x in out if x != ""]) < len(cases):
+        # the driver died (abort / stack overflow / fault): the first case without an answer is the culprit
+        k = len([x for x in p.stdout.split("\n") if x != ""])
+        out = (out + [""] * len(cases))[:len(cases)]
+        out[k] = "CRASH(exit %s)" % p.returncode
+    return out
+
+
+def find_hang(binary, cases, per=20):
+    """bisect a chunk that did not finish within its time limit down to one case"""
+    if len(cases) == 1:
+        return cases[0]
+    half = len(cases) // 2
+    try:
+        run_cases(binary, cases[:half], timeout=per)
+    except subprocess.TimeoutExpired:
+        return find_hang(binary, cases[:half], per)
+    return find_hang(binary, cases[half:], per)
 
 
 # ------------------------------------------------------------------ oracle
@@ -94,6 +113,45 @@ def expected(case):
         s = a[k]
         return -int(s[1:], 16) if s.startswith("-") else int(s, 16)
     try:
+        if op == "sc":
+            big, ty, o, side = a[0], a[1], a[2], a[3]
+            x, sv = I(4), I(5)
+            if side == "l":
+                l, r = sv, x
+            else:
+                l, r = x, sv
+            if o == "add":
+                v = l + r
+            elif o == "sub":
+                v = l - r
+            elif o == "mul":
+                v = l * r
+            elif o in ("div", "rem"):
+                if r == 0:
+                    return "PANIC"
+                q, m = tdiv(l, r)
+                v = q if o == "div" else m
+            else:
+                return None
+            if big == "u" and v < 0:
+                return "PANIC"
+            return hx(v)
+        if op in ("ufrom_f64", "ifrom_f64", "ufrom_f32", "ifrom_f32"):
+            bits = int(a[0], 16)
+            if op.endswith("64"):
+                f = struct.unpack("<d", struct.pack("<Q", bits))[0]
+            else:
+                f = struct.unpack("<f", struct.pack("<I", bits))[0]
+            if f != f or f in (math.inf, -math.inf):
+                return "None"
+            t = int(f)
+            if op.startswith("u") and t < 0:
+                return "None"
+            if op.startswith("u") and f < 0 and t == 0:
+                return "Some(0)" if f > -1.0 else "None"
+            return opt(hx(t))
+        if op in ("upow_big_rv", "upow_big_rr", "ipow_big", "ipow_big_rv", "ipow_u8", "ipow_u128", "upow_u64"):
+            return hx(I(0) ** I(1))
         if op in ("uadd", "uadd_vv", "uadd_vr", "uadd_assign", "uadd_u32", "uadd_u64", "uadd_u128", "iadd", "iadd_vv", "iadd_vr", "iadd_rv", "iadd_assign", "iadd_i64"):
             return hx(I(0) + I(1))
         if op in ("usub", "usub_rv", "usub_assign", "usub_u64", "u64_sub_u", "usub_u128"):
@@ -431,6 +489,16 @@ def bank(pid, tier, seed):
     elif pid == "C02":
         for a, b in pairs():
             cases.append(("umul", hx(a), hx(b)))
+        # regime boundaries of mac3: schoolbook <= 32, half-Karatsuba (2x <= y), Karatsuba <= 256, Toom-3 above; unbalanced shapes
+        for (la, lb) in [(32, 32), (33, 33), (33, 64), (33, 65), (33, 66), (33, 67), (40, 200), (64, 129), (100, 150), (200, 300), (256, 256),
+                         (257, 257), (257, 300), (257, 400), (257, 513), (260, 390), (300, 450), (300, 500), (300, 599), (300, 600), (320, 481),
+                         (400, 700), (513, 513)]:
+            for pat in (None, "ones", "rand"):
+                a = big(rng, la, pat)
+                b = big(rng, lb, pat)
+                cases.append(("umul", hx(a), hx(b)))
+                cases.append(("umul", hx(b), hx(a)))
+            cases.append(("imul", hx(-big(rng, la)), hx(big(rng, lb))))
         for a, b in signed(pairs(10)):
             cases.append(("imul", hx(a), hx(b)))
         for a, _ in pairs(20):
@@ -543,6 +611,29 @@ def bank(pid, tier, seed):
                     cases.append(("ito_f64", hx(-((1 << hi) + (1 << rb) + (1 << lo)))))
             cases.append(("uto_f64", hx((1 << hi) + (1 << rb))))
             cases.append(("uto_f64", hx((1 << hi) + (3 << rb))))
+        def fb(x):
+            return format(struct.unpack("<Q", struct.pack("<d", float(x)))[0], "x")
+        def fb32(x):
+            return format(struct.unpack("<I", struct.pack("<f", float(x)))[0], "x")
+        fl = [0.0, -0.0, 0.5, -0.5, 0.999, 1.0, -1.0, 1.5, -1.5, 2.0 ** 31, 2.0 ** 32, 2.0 ** 52, 2.0 ** 53, 2.0 ** 53 + 2, 2.0 ** 62, 2.0 ** 63, -(2.0 ** 63),
+              2.0 ** 63 * 1.0000000000000002, 2.0 ** 64, -(2.0 ** 64), 2.0 ** 64 - 2048, 2.0 ** 100, 1e300, -1e300, 1.7976931348623157e308, 5e-324, 3.5e18, -9.3e18, 1.8446744073709552e19,
+              2.0 ** 127, -(2.0 ** 127), 2.0 ** 128, 12345.678, -98765.4321]
+        for f in fl:
+            cases.append(("ufrom_f64", fb(f)))
+            cases.append(("ifrom_f64", fb(f)))
+            if abs(f) < 3e38:
+                cases.append(("ufrom_f32", fb32(f)))
+                cases.append(("ifrom_f32", fb32(f)))
+        for special in ("7ff0000000000000", "fff0000000000000", "7ff8000000000000", "7ff0000000000001"):
+            cases.append(("ufrom_f64", special))
+            cases.append(("ifrom_f64", special))
+        for special in ("7f800000", "ff800000", "7fc00000"):
+            cases.append(("ufrom_f32", special))
+            cases.append(("ifrom_f32", special))
+        for k in range(0, 130):
+            cases.append(("ifrom_f64", fb(2.0 ** k)))
+            cases.append(("ifrom_f64", fb(-(2.0 ** k))))
+            cases.append(("ufrom_f64", fb(2.0 ** k)))
         for e in (-(1 << 63), (1 << 63) - 1, -(1 << 127), (1 << 127) - 1, 1 << 63, 1 << 127, -(1 << 63) - 1, -(1 << 127) - 1, -128, 127, -129, 128):
             for op in ("ito_i64", "ito_i128", "ito_i8", "ito_u64"):
                 cases.append((op, hx(e)))
@@ -560,6 +651,33 @@ def bank(pid, tier, seed):
                 cases.append(("ito_signed_bytes_le", hx(v)))
                 cases.append(("ito_signed_bytes_be", hx(v)))
     elif pid == "C10":
+        utypes = {"u8": 8, "u32": 32, "u64": 64, "u128": 128, "usize": 64}
+        itypes = {"i8": 8, "i32": 32, "i64": 64, "i128": 128, "isize": 64}
+        bigs = [0, 1, 2, B64 - 1, B64, B64 + 1, (1 << 128) - 1, 1 << 128, (1 << 128) + (1 << 64), big(rng, 3), big(rng, 4, "ones"), big(rng, 5)]
+        for x in bigs:
+            for ty, w in utypes.items():
+                svals = sorted(set([0, 1, 2, (1 << w) - 1, 1 << (w - 1), (1 << (w - 1)) + 1, min((1 << w) - 1, 1 << 32), min((1 << w) - 1, (1 << 64) + 5), rng.getrandbits(w)]))
+                for sv in svals:
+                    for o in ("add", "sub", "mul", "div", "rem"):
+                        for side in ("r", "l", "a", "rr"):
+                            cases.append(("sc", "u", ty, o, side, hx(x), hx(sv)))
+                            if ty in ("u32", "u64", "u128"):
+                                cases.append(("sc", "i", ty, o, side, hx(-x), hx(sv)))
+                                cases.append(("sc", "i", ty, o, side, hx(x), hx(sv)))
+            for ty, w in itypes.items():
+                svals = sorted(set([0, 1, -1, 2, -2, (1 << (w - 1)) - 1, -(1 << (w - 1)), -(1 << (w - 1)) + 1, rng.getrandbits(w - 1), -rng.getrandbits(w - 1)]))
+                for sv in svals:
+                    for o in ("add", "sub", "mul", "div", "rem"):
+                        for side in ("r", "l", "a", "rr"):
+                            cases.append(("sc", "i", ty, o, side, hx(x), hx(sv)))
+                            cases.append(("sc", "i", ty, o, side, hx(-x), hx(sv)))
+        for a in [0, 1, 2, 3, B64, big(rng, 2)]:
+            for e in (0, 1, 2, 3, 5, 10, 64):
+                for op in ("upow_big", "upow_big_rv", "upow_big_rr", "upow_u64"):
+                    cases.append((op, hx(a), hx(e)))
+                for op in ("ipow_big", "ipow_big_rv", "ipow_u8", "ipow_u128"):
+                    cases.append((op, hx(-a), hx(e)))
+                    cases.append((op, hx(a), hx(e)))
         for a, _ in pairs(4):
             for s in (0, 1, 2, 127, 128, 255, (1 << 63), B64 - 1):
                 cases.append(("i8_rem_assign_u", hx(-128), hx(s)))
@@ -576,6 +694,15 @@ def bank(pid, tier, seed):
                 cases.append(("i64_rem_i", hx(s - (1 << 63)), hx(-a)))
                 cases.append(("imul_i64", hx(-a), hx(s - (1 << 63))))
     elif pid == "C11":
+        # operands around the f64 exponent limit (the scaled-guess paths of sqrt/cbrt/nth_root) and just below powers of two
+        for k in list(range(1020, 1032)) + [1535, 1536, 2047, 2048, 2049, 2050, 3071, 3072, 3073, 4096, 4099]:
+            for c in (0, 1, 12345):
+                x = (1 << k) - c
+                cases.append(("usqrt", hx(x)))
+                cases.append(("ucbrt", hx(x)))
+                cases.append(("unth_root", hx(x), hx(3)))
+                cases.append(("unth_root", hx(x), hx(5)))
+                cases.append(("icbrt", hx(-x)))
         for nd in range(0, 12):
             for _ in range(reps):
                 a = big(rng, nd)
@@ -590,10 +717,15 @@ def bank(pid, tier, seed):
                     cases.append(("inth_root", hx(-a), hx(n)))
     elif pid == "C12":
         for a in [0, 1, 2, 3, B64 - 1, B64, big(rng, 2), big(rng, 3)]:
-            for e in (0, 1, 2, 3, 4, 5, 8, 15, 16, 17, 31, 64, 100):
+            for e in (0, 1, 2, 3, 4, 5, 6, 7, 8, 9, 10, 11, 12, 13, 15, 16, 17, 21, 31, 32, 33, 64, 100, 127, 255):
                 cases.append(("upow", hx(a), hx(e)))
                 cases.append(("ipow", hx(-a), hx(e)))
-                cases.append(("upow_big", hx(a), hx(e)))
+                cases.append(("ipow", hx(a), hx(e)))
+                for op in ("upow_big", "upow_big_rv", "upow_big_rr", "upow_u64"):
+                    cases.append((op, hx(a), hx(e)))
+                for op in ("ipow_big", "ipow_big_rv", "ipow_u8", "ipow_u128"):
+                    cases.append((op, hx(-a), hx(e)))
+                    cases.append((op, hx(a), hx(e)))
     elif pid == "C13":
         for a, b in signed(pairs(5)):
             for op in ("igcd", "ilcm", "iis_multiple_of"):
@@ -626,6 +758,13 @@ def search(pid, repo, tier, seed, budget_s=120):
     if not binary:
         return None, "replay driver did not build: " + err[-500:], 0
     cases = bank(pid, tier, seed)
+    global LAST_BANK_INFO
+    mx = 0
+    for c in cases:
+        for a_ in c[1:]:
+            if isinstance(a_, str) and len(a_) > mx and all(ch in "-0123456789abcdef" for ch in a_):
+                mx = len(a_)
+    LAST_BANK_INFO = {"cases_in_bank": len(cases), "max_operand_hex_digits": mx, "max_operand_64bit_digits": (mx + 15) // 16}
     t0 = time.time()
     n = 0
     CH = 4000
@@ -633,7 +772,10 @@ def search(pid, repo, tier, seed, budget_s=120):
         chunk = cases[i:i + CH]
         exp = [expected(c) for c in chunk]
         try:
-            got = run_cases(binary, chunk)
+            got = run_cases(binary, chunk, timeout=60)
+        except subprocess.TimeoutExpired:
+            c = find_hang(binary, chunk)
+            return {"op": c[0], "args": list(c[1:]), "expected": expected(c) or "(terminates)", "observed": "TIMEOUT (no answer within 20 s)"}, "", n
         except Exception as e:
             return None, "driver run failed: %r" % e, n
         for c, e, g in zip(chunk, exp, got):
@@ -662,7 +804,10 @@ def find_and_write(pid, viol, repo, tier, seed):
         if found:
             # confirm once more against the real code
             binary, _ = build_driver(repo)
-            again = run_cases(binary, [tuple([found["op"]] + found["args"])])[0].strip()
+            try:
+                again = run_cases(binary, [tuple([found["op"]] + found["args"])], timeout=20)[0].strip()
+            except subprocess.TimeoutExpired:
+                again = "TIMEOUT (no answer within 20 s)"
             rec["confirmed_observed"] = again
             if again == found["expected"]:
                 rec["failing_input"] = None
